@@ -125,6 +125,12 @@ def run(ctx):
         "good-and-syntax-error": {"files": {"a.tjp": ins["containers"], "b.tjp": bad["syntax-error"]["files"]["in.tjp"]},
                                   "procs": [{"args": ["report", "a.tjp"]}, {"args": ["report", "b.tjp"]}]},
         "path-and-stdin": {"files": {"a.tjp": ins["unschedulable"]}, "procs": [{"args": ["report", "a.tjp"]}, {"args": ["report", "-"], "stdin": ins["utf8"]}]},
+        # output FILES requested with -o: names that share a stem (r.json / r.csv), and the very same name twice - whatever the runs
+        # use as scratch names next to the target must not be shared between them; each file must hold what its run writes alone
+        "out-files-shared-stem": {"files": {"a.tjp": ins["simple"], "b.tjp": ins["own-both"]}, "outfiles": True,
+                                  "procs": [{"args": ["report", "-o", "r.json", "a.tjp"]}, {"args": ["report", "--csv", "-o", "r.csv", "b.tjp"]}]},
+        "out-files-other-names": {"files": {"a.tjp": ins["simple"]}, "outfiles": True,
+                                  "procs": [{"args": ["report", "-o", "one.json", "a.tjp"]}, {"args": ["report", "-o", "two.json", "-"], "stdin": ins["utf8"]}]},
         "own-reports-twice": {"files": {"a.tjp": ins["own-both"], "b.tjp": ins["nested-reports"]}, "procs": [{"args": ["report", "a.tjp"]}, {"args": ["report", "b.tjp"]}]},
     }
     plans = [(name, c, 2, 1 if ctx.tier == "quick" else 2) for name, c in combos.items()]
@@ -151,6 +157,15 @@ def run(ctx):
                 st.nontrivial.add((name, tuple(r["choices"])))
                 st.states.add((name, tuple((x["code"], hash(x["stdout"])) for x in r["results"]), tuple(r["tmp_left"])))
                 vs = clean_verdict(r)
+                if combo.get("outfiles"):
+                    # the requested files are meant to appear: compare them (names and bytes) with what the runs write alone
+                    vs = [x for x in vs if x[0] != "cwd-changed"]
+                    want = {}
+                    for sres in solo:
+                        want.update(sres.get("cwd_new") or {})
+                    if r.get("cwd_new") != want:
+                        vs.append(("interference", f"files written under this interleaving {sorted((r.get('cwd_new') or {}).items())} differ from the files the "
+                                                   f"runs write alone {sorted(want.items())}"))
                 for i, (got, exp) in enumerate(zip(r["results"], solo)):
                     if got["code"] != exp["code"] or got["stdout"] != exp["stdout"]:
                         vs.append(("interference", f"process {i} ({combo['procs'][i]['args']}): exit {got['code']} / stdout {got['stdout'][:100]!r} under this "
